@@ -254,7 +254,9 @@ async fn c17_async(ctx: &mut Ctx) {
     let vote_s = *ctx.tape.pick(&[30u64, 120, 8]);
     let advertise = ctx.tape.choose(2) == 0;
     let nat = ctx.tape.choose(4) == 0;
-    let mut sw = match SWorld::new(0, advertise, v4_listen(), |b| {
+    let dual = ctx.tape.choose(3) == 0;
+    let listen = if dual { ListenConfig::DualStack { ipv4: Ipv4Addr::new(10, 1, 0, 250), ipv4_port: 9000, ipv6: std::net::Ipv6Addr::new(0x2001, 0, 0, 0, 0, 0, 0, 0xfa), ipv6_port: 9000 } } else { v4_listen() };
+    let mut sw = match SWorld::new(0, advertise, listen, |b| {
         b.enr_peer_update_min(min).vote_duration(Duration::from_secs(vote_s)).ping_interval(Duration::from_secs(1)).auto_nat_listen_duration(if nat { Some(Duration::from_secs(20)) } else { None });
     })
     .await
@@ -274,21 +276,31 @@ async fn c17_async(ctx: &mut Ctx) {
         outgoing.insert(v, out);
         sw.establish(v, 1, if out { ConnectionDirection::Outgoing } else { ConnectionDirection::Incoming }).await;
     }
-    let cands: Vec<SocketAddr> = vec![
+    let mut cands: Vec<SocketAddr> = vec![
         SocketAddr::new(IpAddr::V4(Ipv4Addr::new(198, 51, 100, 7)), 9000),
         SocketAddr::new(IpAddr::V4(Ipv4Addr::new(198, 51, 100, 7)), 9001),
         SocketAddr::new(IpAddr::V4(Ipv4Addr::new(203, 0, 113, 9)), 30303),
     ];
+    if dual {
+        cands.push(SocketAddr::new(IpAddr::V6(std::net::Ipv6Addr::new(0x2001, 0xdb8, 0, 0, 0, 0, 0, 7)), 9000));
+        cands.push(SocketAddr::new(IpAddr::V6(std::net::Ipv6Addr::new(0x2001, 0xdb8, 0, 0, 0, 0, 0, 7)), 9009));
+    }
+    let nc = cands.len() as u32;
     // each voter's current opinion; changes now and then
     let mut opinion: BTreeMap<usize, usize> = BTreeMap::new();
     let liars = ctx.tape.choose((min as u32).min(nv as u32)) as usize; // fewer liars than the minimum
     for (k, &v) in voters.iter().enumerate() {
-        opinion.insert(v, if k < liars { 2 } else { ctx.tape.choose(2) as usize });
+        opinion.insert(v, if k < liars { 2 } else if dual && ctx.tape.choose(2) == 0 { 3 + ctx.tape.choose(2) as usize } else { ctx.tape.choose(2) as usize });
     }
-    ctx.ev(format!("cfg min={min} vote_duration={vote_s}s voters={nv} outgoing={:?} liars={liars} advertise={advertise} nat_check={nat}", outgoing.values().collect::<Vec<_>>()));
+    ctx.ev(format!("cfg dual_stack={dual} min={min} vote_duration={vote_s}s voters={nv} outgoing={:?} liars={liars} advertise={advertise} nat_check={nat}", outgoing.values().collect::<Vec<_>>()));
     // reference ledger: eligible voter -> (address, time of vote)
-    let mut votes: BTreeMap<usize, (SocketAddr, u64)> = BTreeMap::new();
-    let mut last_sock = sw.d.local_enr().udp4_socket();
+    // (a peer holds one opinion per address family: a v4 vote does not replace its v6 vote)
+    let mut votes: BTreeMap<(usize, bool), (SocketAddr, u64)> = BTreeMap::new();
+    // dual stack: whether an incoming peer's PONG is counted depends on how many votes are missing
+    // at that moment, so any of its unexpired PONGs may be the one on record
+    let mut incoming_pongs: Vec<(usize, SocketAddr, u64)> = vec![];
+    let socks = |e: &Enr| -> (Option<SocketAddr>, Option<SocketAddr>) { (e.udp4_socket().map(SocketAddr::V4), e.udp6_socket().map(SocketAddr::V6)) };
+    let mut last_sock = socks(&sw.d.local_enr());
     let mut last_seq = sw.d.local_enr().seq();
     let mut held: Vec<(RequestId, usize, NodeAddress)> = vec![];
     let rounds = 10 + ctx.tape.choose(60);
@@ -307,7 +319,7 @@ async fn c17_async(ctx: &mut Ctx) {
             1 => {
                 // somebody changes their mind
                 let v = *ctx.tape.pick(&voters);
-                let o = ctx.tape.choose(3) as usize;
+                let o = ctx.tape.choose(nc) as usize;
                 opinion.insert(v, o);
                 ctx.fault("voter_changes_vote");
             }
@@ -337,8 +349,11 @@ async fn c17_async(ctx: &mut Ctx) {
         sw.settle().await;
         ctx.ev(format!("t={t} PONG from #{voter} ({}) votes {addr}", if outgoing[&voter] { "outgoing" } else { "incoming" }));
         if outgoing[&voter] {
-            votes.insert(voter, (addr, t));
-        } else {
+            votes.insert((voter, addr.is_ipv6()), (addr, t));
+        } else if dual {
+            incoming_pongs.push((voter, addr, t));
+        }
+        if !outgoing[&voter] {
             ctx.fault("vote_from_incoming_peer");
         }
         for e in sw.take_events() {
@@ -347,7 +362,7 @@ async fn c17_async(ctx: &mut Ctx) {
             }
         }
         let enr = sw.d.local_enr();
-        let sock = enr.udp4_socket();
+        let sock = socks(&enr);
         if sock != last_sock {
             ctx.ev(format!("t={} local record address {:?} -> {:?} (seq {})", now_ms(), last_sock, sock, enr.seq()));
             ctx.count("address_changes");
@@ -357,22 +372,25 @@ async fn c17_async(ctx: &mut Ctx) {
             if !enr.verify() {
                 ctx.fail("c17.invalid-signature", "the updated local record does not verify", &[]);
             }
-            if let Some(a) = sock {
+            let changed: Vec<SocketAddr> = [(sock.0, last_sock.0), (sock.1, last_sock.1)].iter().filter(|(n, o)| n != o).filter_map(|(n, _)| *n).collect();
+            for a in changed {
                 changes_to_some += 1;
-                let a = SocketAddr::V4(a);
                 let now = now_ms();
                 let live: Vec<&(SocketAddr, u64)> = votes.values().filter(|(_, tv)| tv + vote_s * 1000 > now).collect();
-                let c1 = live.iter().filter(|(x, _)| *x == a).count();
+                let inc: BTreeSet<usize> = incoming_pongs.iter().filter(|(_, x, tv)| *x == a && tv + vote_s * 1000 > now).map(|(p, _, _)| *p).collect();
+                let c1 = live.iter().filter(|(x, _)| *x == a).count() + inc.len();
                 let mut rival = 0;
                 for c in &cands {
-                    if *c != a {
+                    if *c != a && c.is_ipv4() == a.is_ipv4() {
                         rival = rival.max(live.iter().filter(|(x, _)| x == c).count());
                     }
                 }
                 let threshold = ((c1 as f64) * 0.7).round() as usize;
                 if c1 < min {
                     ctx.fail("c17.moved-by-fewer-than-minimum", format!("address set to {a} backed by {c1} unexpired votes of eligible peers, minimum {min}"), &[]);
-                } else if rival >= threshold {
+                } else if rival >= threshold && !dual {
+                    // (dual stack: which incoming peers' votes count depends on how many votes were
+                    // missing at the time, so only the minimum clause is checked there)
                     ctx.fail("c17.no-clear-majority", format!("address set to {a} with {c1} votes while a rival has {rival} (needs < {threshold})"), &[]);
                 }
             }
